@@ -692,6 +692,39 @@ def _blocks(fn):
     return out
 
 
+def fuse_unpack_stores(fn):
+    """t1, t2 = E ; X1 = t1 ; X2 = t2      ->      X1, X2 = E        (each t read exactly once, stores in the same order)"""
+    did = False
+    sc = _Scope(fn)
+    for body in _blocks(fn):
+        i = 0
+        while i < len(body):
+            st = body[i]
+            if isinstance(st, ast.Assign) and len(st.targets) == 1 and isinstance(st.targets[0], ast.Tuple) and all(isinstance(x, ast.Name) for x in st.targets[0].elts):
+                names = [x.id for x in st.targets[0].elts]
+                k = len(names)
+                one = body[i + 1] if i + 1 < len(body) else None
+                if isinstance(one, ast.Assign) and len(one.targets) == 1 and isinstance(one.targets[0], ast.Tuple) and isinstance(one.value, ast.Tuple) and len(one.targets[0].elts) == k \
+                        and [getattr(x, "id", None) for x in one.value.elts] == names and len(set(names)) == k \
+                        and all(len(sc.stores.get(n_, [])) == 1 and len(sc.loads.get(n_, [])) == 1 and n_ not in sc.nested_names and n_ not in sc.comp_names and n_ not in sc.params for n_ in names) \
+                        and all((isinstance(t_, ast.Attribute) and _trivial(t_.value)) or isinstance(t_, ast.Name) for t_ in one.targets[0].elts):
+                    body[i:i + 2] = [ast.Assign(targets=[one.targets[0]], value=st.value, lineno=st.lineno)]
+                    ast.fix_missing_locations(fn)
+                    did = True
+                    i += 1
+                    continue
+                nxt = body[i + 1:i + 1 + k]
+                if len(nxt) == k and len(set(names)) == k and all(len(sc.stores.get(n_, [])) == 1 and len(sc.loads.get(n_, [])) == 1 and n_ not in sc.nested_names and n_ not in sc.comp_names and n_ not in sc.params for n_ in names) \
+                        and all(isinstance(s_, ast.Assign) and len(s_.targets) == 1 and isinstance(s_.value, ast.Name) and s_.value.id == n_ and not isinstance(s_.targets[0], ast.Tuple) for s_, n_ in zip(nxt, names)) \
+                        and all(_trivial(s_.targets[0].value) if isinstance(s_.targets[0], ast.Attribute) else isinstance(s_.targets[0], ast.Name) for s_ in nxt):
+                    new_t = ast.Tuple(elts=[clone_target(s_.targets[0]) for s_ in nxt], ctx=ast.Store())
+                    body[i:i + 1 + k] = [ast.Assign(targets=[new_t], value=st.value, lineno=st.lineno)]
+                    ast.fix_missing_locations(fn)
+                    did = True
+            i += 1
+    return did
+
+
 def inline_temps(fn):
     changed = True
     rounds = 0
@@ -733,7 +766,7 @@ def inline_temps(fn):
                     break
                 # a side-effect-free value that is only ever consumed by arithmetic / pure calls (never stored, returned, indexed
                 # for writing or handed to other code): its identity cannot be observed, every use may spell it out
-                if loads and 1 < len(loads) <= 4 and len(ast.unparse(e)) <= 60 and _pure(e) and not _reads_state(e) and _after(fn, st, loads, allow_loop=True) \
+                if loads and 1 < len(loads) <= 4 and len(ast.unparse(e)) <= 200 and _pure(e) and not _reads_state(e) and _after(fn, st, loads, allow_loop=True) \
                         and _names_fixed(sc, e) and _same_loop(fn, st, loads) and _elements_stable(fn, e) and all(_consumed_purely(fn, l) for l in loads):
                     for b2 in _blocks(fn):
                         for k, s2 in enumerate(b2):
@@ -833,6 +866,10 @@ def _consumed_purely(fn, load):
         if isinstance(par, ast.Subscript) and isinstance(par.ctx, ast.Load) and par.value is cur:
             cur = par
             continue
+        if isinstance(par, ast.Subscript) and par.slice is cur:
+            return True  # used as an index: only read
+        if isinstance(par, ast.Tuple) and isinstance(parents.get(id(par)), ast.Subscript) and parents[id(par)].slice is par:
+            return True
         if isinstance(par, ast.keyword):
             cur = par
             continue
@@ -959,19 +996,27 @@ def loops_to_comprehensions(fn):
         while i + 1 < len(body):
             a, lp = body[i], body[i + 1]
             if isinstance(a, ast.Assign) and len(a.targets) == 1 and isinstance(a.targets[0], ast.Name) and isinstance(a.value, ast.List) and not a.value.elts \
-                    and isinstance(lp, ast.For) and not lp.orelse and len(lp.body) == 1 and isinstance(lp.body[0], ast.Expr) and isinstance(lp.body[0].value, ast.Call):
+                    and isinstance(lp, ast.For) and not lp.orelse and len(lp.body) == 1 and (
+                        (isinstance(lp.body[0], ast.Expr) and isinstance(lp.body[0].value, ast.Call))
+                        or (isinstance(lp.body[0], ast.If) and not lp.body[0].orelse and len(lp.body[0].body) == 1 and isinstance(lp.body[0].body[0], ast.Expr) and isinstance(lp.body[0].body[0].value, ast.Call))):
                 xs = a.targets[0].id
-                c = lp.body[0].value
+                flt = []
+                inner_st = lp.body[0]
+                if isinstance(inner_st, ast.If):
+                    flt = [inner_st.test]
+                    inner_st = inner_st.body[0]
+                c = inner_st.value
                 if isinstance(c.func, ast.Attribute) and c.func.attr == "append" and isinstance(c.func.value, ast.Name) and c.func.value.id == xs and len(c.args) == 1 and not c.keywords:
                     e = c.args[0]
                     tnames = {x.id for x in ast.walk(lp.target) if isinstance(x, ast.Name)}
-                    mentions_xs = any(isinstance(x, ast.Name) and x.id == xs for x in ast.walk(e)) or any(isinstance(x, ast.Name) and x.id == xs for x in ast.walk(lp.iter))
+                    mentions_xs = any(isinstance(x, ast.Name) and x.id == xs for x in ast.walk(e)) or any(isinstance(x, ast.Name) and x.id == xs for x in ast.walk(lp.iter)) \
+                        or any(isinstance(x, ast.Name) and x.id == xs for t_ in flt for x in ast.walk(t_))
                     later = [x for st in body[i + 2:] for x in ast.walk(st) if isinstance(x, ast.Name) and x.id in tnames]
                     sc = _Scope(fn)
                     stores_elsewhere = any(len(sc.stores.get(t_, [])) != 1 for t_ in tnames)
                     if not mentions_xs and not later and not stores_elsewhere and not any(t_ in sc.nested_names or t_ in sc.comp_names for t_ in tnames) \
                             and not any(isinstance(x, (ast.Yield, ast.YieldFrom, ast.Await, ast.NamedExpr)) for x in ast.walk(e)):
-                        comp = ast.ListComp(elt=e, generators=[ast.comprehension(target=lp.target, iter=lp.iter, ifs=[], is_async=0)])
+                        comp = ast.ListComp(elt=e, generators=[ast.comprehension(target=lp.target, iter=lp.iter, ifs=flt, is_async=0)])
                         body[i:i + 2] = [ast.Assign(targets=[ast.Name(id=xs, ctx=ast.Store())], value=comp, lineno=a.lineno)]
                         ast.fix_missing_locations(fn)
                         did = True
@@ -1204,7 +1249,23 @@ def alpha(fn, depth=0):
         if n is not fn and isinstance(n, (ast.FunctionDef, ast.AsyncFunctionDef)) and not getattr(n, "_alpha_done", False):
             n._alpha_done = True
             alpha(n, depth + 1)
-    # comprehension variables first, each comprehension its own numbering (they never leak)
+    rename_comp_vars(fn, depth)
+    sc = _Scope(fn)
+    keep = sc.nested_names | sc.imports | set(sc.params)
+    mapping = {}
+    for n in sc.locals():
+        if n in keep or n.startswith("_C"):
+            continue
+        st = sc.stores[n][0]
+        if isinstance(st, (ast.FunctionDef, ast.AsyncFunctionDef, ast.ClassDef)):
+            continue
+        mapping[n] = "_L%s%d" % ("n" * depth, len(mapping))
+    fn.body = [_RenameOwn(mapping).visit(s) for s in fn.body]
+    return fn
+
+
+def rename_comp_vars(fn, depth=0):
+    """comprehension variables, each comprehension its own numbering (they never leak)"""
     k = [0]
 
     class C(ast.NodeTransformer):
@@ -1234,17 +1295,6 @@ def alpha(fn, depth=0):
             return n
         visit_ListComp = visit_SetComp = visit_DictComp = visit_GeneratorExp = _c
     fn.body = [C().visit(s) for s in fn.body]
-    sc = _Scope(fn)
-    keep = sc.nested_names | sc.imports | set(sc.params)
-    mapping = {}
-    for n in sc.locals():
-        if n in keep or n.startswith("_C"):
-            continue
-        st = sc.stores[n][0]
-        if isinstance(st, (ast.FunctionDef, ast.AsyncFunctionDef, ast.ClassDef)):
-            continue
-        mapping[n] = "_L%s%d" % ("n" * depth, len(mapping))
-    fn.body = [_RenameOwn(mapping).visit(s) for s in fn.body]
     return fn
 
 
@@ -1288,6 +1338,8 @@ def split_versions(fn):
     (Two variables with disjoint live ranges and one re-used variable are the same program.)"""
     sc = _Scope(fn)
     cand = {n for n in sc.locals() if n not in sc.nested_names and n not in sc.comp_names and n not in sc.imports and len(sc.stores.get(n, [])) > 1}
+    # a parameter that is re-bound is the same thing: the parameter is its first version
+    cand |= {n for n in sc.params if n not in sc.nested_names and n not in sc.comp_names and len(sc.stores.get(n, [])) >= 1 and n not in ("self", "cls")}
     if not cand:
         return fn
     counter = {}
@@ -1325,7 +1377,7 @@ def split_versions(fn):
                 if base not in cand or in_loop:
                     continue
                 # first binding of the function keeps its name; later top-level re-definitions start a new version
-                earlier_store = any(_pos(x) < _pos(tg) for x in sc.stores.get(base, []) if x is not tg)
+                earlier_store = base in sc.params or any(_pos(x) < _pos(tg) for x in sc.stores.get(base, []) if x is not tg)
                 if not earlier_store:
                     continue
                 if not top and loads_after(base, block_end):
@@ -1500,6 +1552,7 @@ def canonical(fn_node, helpers=None, method_helpers=None, sigs=None):
     drop_asserts(fn)
     fn = _Spellings().visit(fn)
     ast.fix_missing_locations(fn)
+    rename_comp_vars(fn)
     reduce_to_loop(fn)
     ifexp_to_if(fn)
     fn = clone(fn)
@@ -1511,6 +1564,8 @@ def canonical(fn_node, helpers=None, method_helpers=None, sigs=None):
     fn = clone(fn)
     fn = split_versions(fn)
     fn = inline_temps(fn)
+    if fuse_unpack_stores(fn):
+        fn = clone(fn)
     lc = loops_to_comprehensions(fn)
     dc = dict_loops(fn)
     if lc or dc:
